@@ -1,7 +1,7 @@
 (* Lsm/History.v — histories of the store model: writes, flushes and admissible compactions.
    Definitions (executable) first, then the invariant proof. *)
 From Coq Require Import NArith List Bool Lia Arith Permutation.
-From Blue Require Import Gen.Const_Lsm Lsm.Model Lsm.KeyOrder Lsm.LoadProofs Lsm.Ordered Lsm.ListLemmas Lsm.SortLemmas Lsm.CompactProofs Lsm.GcProofs.
+From Blue Require Import Gen.Const_Lsm Lsm.Model Lsm.KeyOrder Lsm.LoadProofs Lsm.Ordered Lsm.ListLemmas Lsm.SortLemmas Lsm.CompactProofs Lsm.GcProofs Lsm.WfProofs.
 Import ListNotations.
 Open Scope N_scope.
 
@@ -24,16 +24,16 @@ Fixpoint nodup_keysb (ks : list key) : bool :=
   match ks with [] => true | k :: r => negb (existsb (key_eqb k) r) && nodup_keysb r end.
 
 (* which steps the theorem covers.  A batch holds each key at most once (the real store panics
-   otherwise: finding F7); a compaction is admissible, its outputs are the sorted merge of its
-   inputs, and the resulting levels are well formed (checked on every real tree). *)
+   otherwise: finding F7, repaired by deduplicating); a compaction is admissible and its outputs
+   are the sorted merge of its inputs (that the resulting levels are well formed is then a
+   theorem: Lsm/WfProofs.v). *)
 Definition acceptedb (s : store) (o : op) : bool :=
   match o with
   | OWrite b => nodup_keysb (map fst b)
   | OFlush _ _ => true
-  | OCompact c outs => valid_compactionb (ver s) c && outputs_okb (ver s) c outs &&
-                       wf_versionb (apply_compaction (ver s) c outs)
+  | OCompact c outs => valid_compactionb (ver s) c && outputs_okb (ver s) c outs
   | OGc c outs => valid_compactionb (ver s) c && (S (cupper c) =? length (ver s))%nat &&
-                  gc_outputs_okb (ver s) c outs && wf_versionb (apply_compaction (ver s) c outs)
+                  gc_outputs_okb (ver s) c outs
   | OReopen id sz v' seq' =>
       let s1 := flush s id sz in
       subsetb (file_entries (ver s1)) (file_entries v') && subsetb (file_entries v') (file_entries (ver s1)) &&
@@ -186,26 +186,6 @@ Proof. destruct v as [|l0 r]; [congruence|]. reflexivity. Qed.
 Lemma kview_mem_desc s k : Ordered s -> desc_ts (kfilter k (mem s)).
 Proof. intros Ho. specialize (Ho k). unfold kview in Ho. apply desc_ts_app in Ho. tauto. Qed.
 
-Lemma ssorted_strict_sortedb l : ssorted l -> (forall k, desc_ts (kfilter k l)) -> sorted_entriesb l = true.
-Proof.
-  induction l as [|x r IH]; [reflexivity|]. intros [Hx Hr] Hd.
-  destruct r as [|y r']; [reflexivity|].
-  change (sorted_entriesb (x :: y :: r')) with (entry_leb x y && negb (entry_leb y x) && sorted_entriesb (y :: r')).
-  rewrite (Hx y (or_introl eq_refl)). cbn [andb].
-  rewrite IH; [|exact Hr|].
-  - rewrite andb_true_r. apply negb_true_iff. destruct (entry_leb y x) eqn:E; [exfalso|reflexivity].
-    pose proof (Hx y (or_introl eq_refl)) as Exy. unfold entry_leb in E, Exy.
-    destruct (lex_cmp (ek x) (ek y)) eqn:C; try discriminate.
-    + (* same key: both timestamp comparisons hold, so equal timestamps, against strictness *)
-      pose proof (lex_cmp_eq _ _ C) as Ek. rewrite (lex_cmp_antisym (ek x) (ek y)), C in E. cbn in E.
-      apply N.leb_le in E, Exy. specialize (Hd (ek x)). unfold kfilter in Hd. cbn [filter] in Hd.
-      rewrite key_eqb_refl in Hd. rewrite <- Ek, key_eqb_refl in Hd. cbn [desc_ts] in Hd.
-      destruct Hd as [Hd _]. specialize (Hd y (or_introl eq_refl)). lia.
-    + rewrite (lex_cmp_antisym (ek x) (ek y)), C in E. cbn in E. discriminate.
-  - intros k. specialize (Hd k). unfold kfilter in *. cbn [filter] in Hd.
-    destruct (key_eqb (ek x) k); [cbn [desc_ts] in Hd; tauto|exact Hd].
-Qed.
-
 Lemma sort_entries_wf_file id sz es : es <> [] -> (forall k, desc_ts (kfilter k es)) ->
   wf_fileb (mkF id (sort_entries es) sz) = true.
 Proof.
@@ -297,11 +277,10 @@ Qed.
 
 Lemma compact_inv s c outs : Inv s -> acceptedb s (OCompact c outs) = true -> Inv (compact s c outs).
 Proof.
-  intros I Ha. cbn [acceptedb] in Ha. apply andb_prop in Ha. destruct Ha as [Ha Hwf].
-  apply andb_prop in Ha. destruct Ha as [Hv Ho].
+  intros I Ha. cbn [acceptedb] in Ha. apply andb_prop in Ha. destruct Ha as [Hv Ho].
   pose proof (compaction_preserves_kview s c outs (inv_wf s I) (inv_ord s I) Hv Ho) as Hk.
   constructor.
-  - exact Hwf.
+  - exact (compaction_wf s c outs (inv_wf s I) (inv_ord s I) Hv Ho).
   - intros k. rewrite Hk. apply (inv_ord s I).
   - intros e He. apply in_all_entries_kview in He. rewrite Hk in He. apply in_all_entries_kview in He.
     exact (inv_seq s I e He).
@@ -387,8 +366,9 @@ Lemma gc_inv s c outs : Inv s -> acceptedb s (OGc c outs) = true ->
   Inv (compact s c outs) /\ forall k, top_value (compact s c outs) k = top_value s k.
 Proof.
   intros I Ha. cbn [acceptedb] in Ha.
-  apply andb_prop in Ha. destruct Ha as [Ha Hwf]. apply andb_prop in Ha. destruct Ha as [Ha Hgc].
+  apply andb_prop in Ha. destruct Ha as [Ha Hgc].
   apply andb_prop in Ha. destruct Ha as [Hv Htop]. apply Nat.eqb_eq in Htop.
+  pose proof (gc_wf s c outs (inv_wf s I) (inv_ord s I) Hv Hgc) as Hwf.
   pose proof (fun k => gc_preserves_reads s c outs k (inv_wf s I) (inv_ord s I) Hv Htop Hgc) as G.
   split.
   - constructor.
@@ -435,7 +415,7 @@ Proof.
     intros k. unfold top_value. rewrite (flush_kview s id sz k I Hne). apply Hm.
   - apply IH; [now apply compact_inv|now apply apply_compaction_nonempty| |exact Hacc].
     intros k. unfold top_value.
-    cbn [acceptedb] in Ha. apply andb_prop in Ha. destruct Ha as [Ha _]. apply andb_prop in Ha. destruct Ha as [Hv Ho].
+    cbn [acceptedb] in Ha. apply andb_prop in Ha. destruct Ha as [Hv Ho].
     rewrite (compaction_preserves_kview s c outs (inv_wf s I) (inv_ord s I) Hv Ho k). apply Hm.
   - destruct (gc_inv s c outs I Ha) as (I' & Ht).
     apply IH; [exact I'|now apply apply_compaction_nonempty| |exact Hacc].
@@ -470,7 +450,7 @@ Theorem compaction_preserves_reads s c outs : Inv s -> acceptedb s (OCompact c o
 Proof.
   intros I Ha k t. pose proof (compact_inv s c outs I Ha) as I'.
   rewrite (load_is_find_kview _ k t (inv_wf _ I')), (load_is_find_kview _ k t (inv_wf _ I)).
-  cbn [acceptedb] in Ha. apply andb_prop in Ha. destruct Ha as [Ha _]. apply andb_prop in Ha. destruct Ha as [Hv Ho].
+  cbn [acceptedb] in Ha. apply andb_prop in Ha. destruct Ha as [Hv Ho].
   now rewrite (compaction_preserves_kview s c outs (inv_wf s I) (inv_ord s I) Hv Ho k).
 Qed.
 
